@@ -570,6 +570,7 @@ inductive Op
   | pause (c : Nat) (svc : Bytes) (drt failAfter : Nat)
   | stop (c : Nat) (svc : Bytes) (drt : Nat) (msg : Bytes)
   | resume (c : Nat) (svc : Bytes)
+  | repause (c : Nat) (svc : Bytes) (drt failAfter : Nat)   -- resume immediately followed by pause (one scheduling step)
   | remove (c : Nat) (svc : Bytes)
   | rolloutSet (c : Nat) (svc : Bytes) (percent : Int) (allow : List Bytes)
   | rolloutStop (c : Nat) (svc : Bytes)
@@ -669,6 +670,16 @@ def applyOp (w : World) : Op → World
         let w1 := setG w (gateSet g .stopped msg)
         let cmd : Cmd := { id := c, svc := svc, kind := .stop msg, drt := drt, phase := .gateSet o.id }
         park { w1 with cmds := w1.cmds ++ [cmd] } cmd "stop.gated" (.gateSet o.id))
+  | .repause c svc drt fa =>
+    settle fuel (withInstalled w c svc fun o =>
+      match getG w o.gate with
+      | none => w
+      | some g =>
+        -- the resume closes the pause channel (held requests are released: they will proceed even though the
+        -- service is paused again by the time they run), then the pause opens a new one
+        let w1 := setG w (gatePause (gateSet g .running []) fa)
+        let cmd : Cmd := { id := c, svc := svc, kind := .pause fa, drt := drt, phase := .gateSet o.id }
+        park { w1 with cmds := w1.cmds ++ [cmd] } cmd "pause.gated" (.gateSet o.id))
   | .resume c svc =>
     settle fuel (withInstalled w c svc fun o =>
       match getG w o.gate with
